@@ -167,3 +167,13 @@ def validate(ctx, recs, metas, which, label):
               "raised": out["raised"], "detail": detail,
               "snapshot": rec["snaps"][k - 1] if 1 <= k <= len(rec["snaps"]) else None}
       ctx.violation(clause, case, f, f"{P.config_label(cfg)} {meta['family']} detail={detail}")
+
+
+def replay(ctx, which):
+  """Re-judge the single case of a replay file (./check Cnn --replay path)."""
+  case = ctx.replay_case["case"]
+  cases = [(case.get("family", "replay"), case.get("origin", {}), case["document"], [case["configuration"]])]
+  recs, metas = record_cases(ctx, cases)
+  ctx.evaluations += len(recs)
+  ctx.traces += len(recs)
+  validate(ctx, recs, metas, which, "replay")
